@@ -144,7 +144,21 @@ class AsyncProxy(BaseProxy):
             self._meta["models"]["M"]["any_inputs"] = True
         if simrec.get("meta"):
             self._meta = copy.deepcopy(simrec["meta"])
-        if simrec.get("children"):
+        if simrec.get("set_events"):
+            self._meta["set_events"] = True  # the simulator declares that it MAY call set_event (it need not ever do so)
+        if simrec.get("children") == "swapped_parent" and typ == "hybrid":
+            # the entities that take part in the scenario are CHILDREN (non-public model K with the usual attributes and roles) of
+            # entities of a public model M that has the SAME attribute names with the OPPOSITE roles (i / i2 trigger, ti non-trigger,
+            # p non-persistent, e persistent): a child's classification must be that of ITS model
+            m = self._meta["models"]["M"]
+            k = dict(copy.deepcopy(m), public=False)
+            ins = [a for a in m["attrs"] if a.startswith(("i", "ti"))]
+            outs = [a for a in m["attrs"] if a not in ins]
+            m["trigger"] = [a for a in ins if not S.is_trig(a)]
+            m["non-persistent"] = [a for a in outs if S.is_pers(a)]
+            self._meta["models"]["K"] = k
+            self.swapped = True
+        elif simrec.get("children"):
             # a second, NON-PUBLIC model whose entities only exist as children of the public model's entities, with its own
             # attributes (roles by prefix as usual: pk persistent / ek event output, ik non-trigger / tik trigger input)
             k = {"public": False, "params": [], "attrs": ["ik", "tik", "pk", "ek"], "trigger": ["tik"], "non-persistent": ["ek"]}
@@ -167,6 +181,9 @@ class AsyncProxy(BaseProxy):
             num, model = args
             ents = [{"eid": f"E{self.nent + i}" + (self.ctx.scn.get("eid_suffix") or ""), "type": model} for i in range(num)]
             self.nent += num
+            if getattr(self, "swapped", False):
+                # parents P<n> of model M, each with one child E<n> of model K: the scenario's entity ids name the children
+                return [{"eid": "P" + e["eid"][1:], "type": model, "children": [{"eid": e["eid"], "type": "K"}]} for e in ents]
             if S.sim_by_id(ctx.scn)[self.sid].get("children"):
                 for e in ents:
                     e["children"] = [{"eid": "K" + e["eid"][1:], "type": "K"}]
@@ -348,6 +365,8 @@ def build_world(ctx: Ctx, loop, world_kw=None, connect_order=None):
         with contextlib.redirect_stdout(io.StringIO()):  # (mosaik_api_v3 print()s a deprecation notice for old signatures)
             fac = world.start(sid, sim_id=sid)
         ents[sid] = fac.M.create(sims[sid].get("nent", 1))
+        if sims[sid].get("children") == "swapped_parent" and ents[sid] and ents[sid][0].eid.startswith("P") and ents[sid][0].children:
+            ents[sid] = [e.children[0] for e in ents[sid]]
 
     def visit(path):
         for sid in order:
@@ -359,9 +378,29 @@ def build_world(ctx: Ctx, loop, world_kw=None, connect_order=None):
             if len(gp) > len(path) and gp[: len(path)] == path and gp[len(path)] not in children:
                 children.append(gp[len(path)])
         for c in children:
-            with world.group():
-                visit(path + (c,))
+            if cm_mode == "upfront":
+                with cms[path + (c,)]:
+                    visit(path + (c,))
+            elif cm_mode == "decorator":
+                in_group(path + (c,))
+            else:
+                with world.group():
+                    visit(path + (c,))
 
+    # how the group context managers are created and entered (the group tree is given by where they are ENTERED):
+    # inline `with world.group():` / every manager created up front, entered later / one manager used as a decorator for every group
+    cm_mode = scn.get("group_cm")
+    cms = {}
+    if cm_mode == "upfront":
+        for sid in order:
+            gp = tuple(sims[sid]["gpath"])
+            for k in range(1, len(gp) + 1):
+                if gp[:k] not in cms:
+                    cms[gp[:k]] = world.group()
+    elif cm_mode == "decorator":
+        @world.group()
+        def in_group(path):
+            visit(path)
     if scn.get("abandoned_group"):
         # a group block that is left by an exception which the scenario script catches (e.g. a failed start or connect inside the
         # block): everything started afterwards is, by the program text, outside that group
@@ -588,6 +627,31 @@ def execute(scn: dict, behaviour, policy, run_kw=None, world_kw=None, connect_or
             return ctx
         if hooks:
             hooks(ctx)
+        if scn.get("query_before_run") and all((x.get("transport") or scn.get("transport") or "async") == "async" for x in scn["sims"]):
+            # the public query World.get_data() BEFORE the run, on every source entity of a data connection: it returns what the
+            # simulators answer and must change nothing about the run that follows
+            n0 = len(ctx.trace)
+            added = [x["sid"] for x in scn["sims"] if x["sid"] not in ctx.steptime]
+            for sid_ in added:
+                ctx.steptime[sid_] = 0
+            try:
+                with _Watchdog():
+                    want = {}
+                    for c in scn["conns"]:
+                        if c["sa"]:
+                            sfx_ = scn.get("eid_suffix") or ""
+                            se_ = c["se"][:-len(sfx_)] if sfx_ and c["se"].endswith(sfx_) else c["se"]
+                            e_ = ents[c["src"]][int(se_[1:])]
+                            want.setdefault(e_, set()).add(c["sa"])
+                    for e_, attrs in want.items():
+                        world.get_data([e_], *sorted(attrs))
+            except BaseException as e:  # noqa: BLE001
+                ctx.outcome = dict(classify(e), phase="build")
+                return ctx
+            finally:
+                del ctx.trace[n0:]
+                for sid_ in added:
+                    ctx.steptime.pop(sid_, None)
         if internal_trace:
             from . import internal
 
